@@ -111,15 +111,20 @@ def rows_of(t, rank: int) -> List[List[Any]]:
         return [list(x) for x in snap[rank]]
     df = t.get_trace(rank)
     tab = t.symbol_table.get_sym_table()
+    # names and categories as the *file* has them (by position in its event list) where the case is known: what an
+    # analysis is judged against is the trace, not the loader's decoding of it (the decoding itself is C01 / C11)
+    file_names = (getattr(t, "_verif_file_names", None) or {}).get(rank, {})
     out = []
     cols = df.columns
     has_link = "index_correlation" in cols
     has_iter = "iteration" in cols
     for rec in df.itertuples(index=False):
+        i = _i(rec.index)
+        nm, ct = file_names.get(i) or (tab[int(rec.name)], tab[int(rec.cat)])
         out.append([
-            _i(rec.index), _i(rec.ts), _i(rec.dur), _pid(rec.pid), _pid(rec.tid), _i(rec.stream),
+            i, _i(rec.ts), _i(rec.dur), _pid(rec.pid), _pid(rec.tid), _i(rec.stream),
             _i(rec.correlation), _i(rec.index_correlation) if has_link else -1,
-            (_i(rec.iteration) if rec.iteration == rec.iteration else -1) if has_iter else -1, tab[int(rec.name)], tab[int(rec.cat)],
+            (_i(rec.iteration) if rec.iteration == rec.iteration else -1) if has_iter else -1, nm, ct,
         ])
     return out
 
